@@ -2,7 +2,7 @@
 import dns
 
 SLICE = "HISTB (histories of store operations and queries executed with real sleeps on a half-second grid, batched concurrently)"
-RULE = ("seeded histories over a small set of records (including siblings: same owner, type and class) and TTLs {0, 1, 2, large}, plus directed sibling / cache-flush histories: add-authoritative, add-cached(ttl, cache-flush), "
+RULE = ("seeded histories over a small set of records (including siblings: same owner, type and class) and TTLs {0, 1, 2, large}, plus directed sibling / cache-flush histories and owner names crowded with 30..130 records: add-authoritative, add-cached(ttl, cache-flush), "
         "re-add, remove, clear, time advances; mutations happen on even half-second ticks and queries on odd ticks, so no comparison "
         "sits within ~500 ms of an expiry instant; every query uses the authoritative-only (with / without subdomains), cached-only and "
         "combined filters. Oracle: an independent python history spec (last operation on the record decides; cached records are "
@@ -84,11 +84,27 @@ def directed_histories():
     return hs
 
 
+def crowded_histories():
+    """one owner name holding dozens of records (authoritative ones among many cached siblings), past 32, 64 and 128 entries,
+    then further cached traffic for that name: what is registered locally stays, what was cached stays until it expires"""
+    a1, srv = RECS[1], RECS[2]
+    owner = a1["name"]
+    hs = []
+    for n in (30, 31, 32, 33, 63, 64, 65, 130):
+        crowd = [("AC", {"name": owner, "class": 1, "ttl": 1000, "cf": False, "rdata": ("T", "A", [("I", 0x0B000000 + j)])}) for j in range(n)]
+        for auth_first in (True, False):
+            auth = [("AA", a1), ("AA", srv)]
+            first = auth + crowd if auth_first else crowd + auth
+            steps = [first, [("AC", dict(RECS[4], ttl=2, cf=False))], [("AC", dict(crowd[0][1], ttl=1, cf=True))], []]
+            hs.append(steps)
+    return hs
+
+
 def cases(rng, tier):
     out = []
     nlines = 12 if tier == "quick" else 48
     per = 40
-    dh = directed_histories()
+    dh = directed_histories() + crowded_histories()
     for k in range(0, len(dh), per):
         hs = dh[k:k + per]
         line = "HISTB " + " ;; ".join(" ".join(history_toks(h)) for h in hs)
